@@ -3,15 +3,16 @@
 
 use std::sync::Arc;
 
-use serde_json::Value;
+use rayon::prelude::*;
+use serde_json::{json, Value};
 
 use crate::driver::{ReqCfg, RespBody, RespMsg};
-use crate::engine::{Limits, Report, Tier};
+use crate::engine::{show, Limits, Report, Tier, Violation};
 use crate::exch::{ExchCfg, Gate, Menu, ServerMsg};
 use crate::exch_run::{replay_exchange, run_exchanges};
 use crate::refmodel::chunked::{encode, ChunkSpec};
 
-pub const RULE: &str = "codings by construction: chunks of size {1,2,3} x payload pattern {letters, starts with CRLF, ends with CR, starts with LF} x size spelling {plain, leading zero, extension}, last-chunk spelling {0,000,0;x}, 0..2 trailers, size lines of exactly 20 and 19 bytes (the decoder's documented limit), a 130-byte trailer line, trailer field names that look like a status line / last chunk / framing header (HTTP2-Settings, HTTP, 0, Content-Length, Transfer-Encoding), obs-text in quoted chunk-extension values and trailer values, the coding announced by Transfer-Encoding spellings {chunked, Chunked, 'gzip, chunked', 'chunked,', 'gzip,chunked, ,', ', chunked', 'chunked ,TAB'}, also as the answer to an HTTP/1.0 request, always followed by 'HTTP/1.1 2' which must stay unconsumed; quick: all 1-chunk codings and a pairwise-reduced family of 2-chunk codings, thorough: all codings of <=2 chunks and a reduced family of 3-chunk codings; plus single chunks of size 15,16,255,256,4095,4096 in lower/upper/mixed-case hex with and without leading zero. Per coding and boundary-stop {off,on} the COMPLETE graph over (dechunker state, consumed, arrived): 1-byte arrivals, read with buffers {0,1,2,3,4,large} at every window (large chunks: arrival cuts at every size-line/tail position and data end -1/0/+1/+2, buffers {0,size-1,size,size+1,large} and {1,4} up to 256). plus interleaving: all 25 ordered pairs of five chunked responses decoded alternately on one thread (first i steps of one, j steps of the other, then each to its end, for every i, j) with 7-byte arrivals and 3-byte output buffers. distinct = distinct (coding, stop mode, final observation)";
+pub const RULE: &str = "codings by construction: chunks of size {1,2,3} x payload pattern {letters, starts with CRLF, ends with CR, starts with LF} x size spelling {plain, leading zero, extension}, last-chunk spelling {0,000,0;x}, 0..2 trailers, size lines of exactly 20 and 19 bytes (the decoder's documented limit), a 130-byte trailer line, trailer field names that look like a status line / last chunk / framing header (HTTP2-Settings, HTTP, 0, Content-Length, Transfer-Encoding), obs-text in quoted chunk-extension values and trailer values, the coding announced by Transfer-Encoding spellings {chunked, Chunked, 'gzip, chunked', 'chunked,', 'gzip,chunked, ,', ', chunked', 'chunked ,TAB'}, also as the answer to an HTTP/1.0 request, always followed by 'HTTP/1.1 2' which must stay unconsumed; quick: all 1-chunk codings and a pairwise-reduced family of 2-chunk codings, thorough: all codings of <=2 chunks and a reduced family of 3-chunk codings; plus single chunks of size 15,16,255,256,4095,4096 in lower/upper/mixed-case hex with and without leading zero. Per coding and boundary-stop {off,on} the COMPLETE graph over (dechunker state, consumed, arrived): 1-byte arrivals, read with buffers {0,1,2,3,4,large} at every window (large chunks: arrival cuts at every size-line/tail position and data end -1/0/+1/+2, buffers {0,size-1,size,size+1,large} and {1,4} up to 256). plus the same codings (up to 400 bytes) through Call::<RecvBody>::read under boundary stop {off,on} x arrivals {1, 5, all} x buffers {1,3,64}, with is_on_chunk_boundary() checked after every read (on the flow as well); plus interleaving: all 25 ordered pairs of five chunked responses decoded alternately on one thread (first i steps of one, j steps of the other, then each to its end, for every i, j) with 7-byte arrivals and 3-byte output buffers. distinct = distinct (coding, stop mode, final observation)";
 
 const PATTERNS: [&[u8]; 4] = [b"abc", b"\r\nx", b"xy\r", b"\nzz"];
 
@@ -183,6 +184,114 @@ pub fn build(tier: Tier) -> Vec<Arc<ExchCfg>> {
     out
 }
 
+
+/// The same codings through the single-call API (`Call::<RecvBody>::read`, an observation point of its
+/// own): per coding x boundary stop {off, on} x arrivals {1 byte, 5 bytes, everything} x output buffers
+/// {1, 3, 64}: payload, exact consumption, ended exactly at the final CRLF, one chunk per read under
+/// boundary stopping, is_on_chunk_boundary() exactly in front of a size line.
+fn call_level(cfgs: &[Arc<ExchCfg>], rep: &mut Report) {
+    let mut seen = std::collections::HashSet::new();
+    let mut codings: Vec<(Vec<u8>, Vec<u8>, Vec<(usize, usize, usize)>, String)> = Vec::new();
+    for c in cfgs {
+        let m = &c.server[0].msg;
+        if let RespBody::Chunked { coding, payload, ranges } = &m.body {
+            let te = m.get("transfer-encoding").map(|v| String::from_utf8_lossy(v).to_string()).unwrap_or_default();
+            if coding.len() <= 400 && seen.insert((coding.clone(), te.clone())) {
+                codings.push((coding.clone(), payload.clone(), ranges.clone(), te));
+            }
+        }
+    }
+    let res: Vec<(u64, Option<(String, String)>)> = codings
+        .par_iter()
+        .map(|(coding, payload, ranges, te)| {
+            let mut runs = 0u64;
+            for stop in [false, true] {
+                for arr in [1usize, 5, usize::MAX] {
+                    for buf in [1usize, 3, 64] {
+                        runs += 1;
+                        let r = crate::engine::guarded(|| -> Option<(String, String)> {
+                            let head = format!("HTTP/1.1 200 OK\r\nTransfer-Encoding: {}\r\n\r\n", te);
+                            let mut c = crate::props::flows::recv_response_call("GET");
+                            match c.try_response(head.as_bytes()) {
+                                Ok(Some((n, _))) if n == head.len() => {}
+                                o => return Some(("C07:harness:call-level".into(), format!("head not accepted: {:?}", o.map(|x| x.map(|y| y.0))))),
+                            }
+                            let mut b = match c.into_body() {
+                                Ok(Some(b)) => b,
+                                o => return Some(("C07:call:wrong-body-mode".into(), format!("into_body() gave {:?} for a chunked response", o.map(|x| x.is_some())))),
+                            };
+                            b.stop_on_chunk_boundary(stop);
+                            let mut stream = coding.clone();
+                            stream.extend_from_slice(b"HTTP/1.1 2");
+                            let (mut consumed, mut arrived, mut out_off) = (0usize, 0usize, 0usize);
+                            let mut out = vec![0u8; buf];
+                            for _ in 0..(stream.len() + 8) * 3 {
+                                if b.is_ended() {
+                                    break;
+                                }
+                                let (cn, pn) = match crate::engine::with_aliased(&stream[consumed..arrived], |w| b.read(w, &mut out)) {
+                                    Ok(x) => x,
+                                    Err(e) => return Some(("C07:call:read:error".into(), format!("read(window {:?}, {}-byte buffer) failed on a well-formed body: {:?}", show(&stream[consumed..arrived.min(consumed + 40)]), buf, e))),
+                                };
+                                if consumed + cn > coding.len() {
+                                    return Some(("C07:call:read:over-read".into(), format!("read consumed {} bytes at coding offset {} of {}", cn, consumed, coding.len())));
+                                }
+                                if payload.get(out_off..out_off + pn) != Some(&out[..pn]) {
+                                    return Some(("C07:call:read:payload-differs".into(), format!("read produced {:?} at payload offset {}", show(&out[..pn]), out_off)));
+                                }
+                                if stop && pn > 0 && !ranges.iter().any(|(_, po, len)| out_off >= *po && out_off + pn <= po + len) {
+                                    return Some(("C07:call:read:crosses-chunk-boundary".into(), format!("boundary stopping is on but one read returned payload bytes {}..{}", out_off, out_off + pn)));
+                                }
+                                consumed += cn;
+                                out_off += pn;
+                                let ended = b.is_ended();
+                                if ended != (consumed == coding.len()) {
+                                    return Some(("C07:call:read:ended-mismatch".into(), format!("is_ended() = {} but {} of {} coding bytes were consumed", ended, consumed, coding.len())));
+                                }
+                                if !ended {
+                                    let want_boundary = consumed == 0 || ranges.iter().any(|(d, _, l)| d + l + 2 == consumed);
+                                    if b.is_on_chunk_boundary() != want_boundary {
+                                        return Some(("C07:call:read:chunk-boundary-query".into(), format!("{} coding bytes consumed but is_on_chunk_boundary() = {}", consumed, !want_boundary)));
+                                    }
+                                }
+                                if cn == 0 && pn == 0 {
+                                    if arrived == stream.len() {
+                                        return Some(("C07:call:read:no-progress".into(), format!("everything arrived, {} of {} coding bytes consumed, body not ended, read returns (0, 0)", consumed, coding.len())));
+                                    }
+                                    arrived = arrived.saturating_add(arr).min(stream.len());
+                                }
+                            }
+                            if !b.is_ended() || out_off != payload.len() {
+                                return Some(("C07:call:read:incomplete".into(), format!("{} of {} payload bytes delivered, ended = {}", out_off, payload.len(), b.is_ended())));
+                            }
+                            None
+                        });
+                        let fail = match r {
+                            Ok(x) => x,
+                            Err(p) => Some((format!("C07:call:panic:{}", crate::engine::panic_site(&p)), p)),
+                        };
+                        if let Some((k, w)) = fail {
+                            return (runs, Some((k, format!("{} [single-call API, coding {:?}, boundary stop {}, arrivals of {} bytes, {}-byte output buffer]", w, show(&coding[..coding.len().min(60)]), stop, if arr == usize::MAX { "all".to_string() } else { arr.to_string() }, buf))));
+                        }
+                    }
+                }
+            }
+            (runs, None)
+        })
+        .collect();
+    let mut total = 0;
+    for (runs, fail) in res {
+        total += runs;
+        if let Some((key, what)) = fail {
+            rep.violation(Violation { key, ord: 60_000_000, what, replay: json!({"kind": "call-level"}) });
+        }
+    }
+    rep.evaluations += total;
+    rep.transitions += total * 20;
+    rep.extra("call_level_runs", json!(total));
+    rep.guard("single-call API runs", total > 1000);
+}
+
 /// Decoders interleaved on one thread (see exch_run::run_interleaved): five chunked responses.
 fn interleave_menu() -> Vec<Arc<ExchCfg>> {
     use crate::refmodel::chunked::encode_bytes;
@@ -202,10 +311,17 @@ pub fn run(tier: Tier) -> Report {
     let fs = rep.extra.get("final_states").and_then(|v| v.as_u64()).unwrap_or(0);
     rep.guard("final states reached", fs > 0);
     crate::exch_run::run_interleaved("C07", interleave_menu(), &mut rep);
+    call_level(&build(tier), &mut rep);
     rep
 }
 
 pub fn replay(v: &Value) -> Result<Option<String>, String> {
+    if v["kind"].as_str() == Some("call-level") {
+        let tier = if v["tier"].as_str() == Some("thorough") { Tier::Thorough } else { Tier::Quick };
+        let mut r = Report::new();
+        call_level(&build(tier), &mut r);
+        return Ok(r.violations.into_iter().next().map(|(k, (_, v))| format!("[{}] {}", k, v.what)));
+    }
     if v["kind"].as_str() == Some("interleaved") {
         let mut r = Report::new();
         crate::exch_run::run_interleaved("C07", interleave_menu(), &mut r);
